@@ -256,7 +256,7 @@ fn opt_same(a: &Option<Coor4D>, b: &Option<Coor4D>) -> bool {
     }
 }
 
-//@h {"id":"C08.K.grids_at.first_hit","props":["C08","C10"],"tier":"quick","kind":"bounded","bound":"lists of 0..=2 grids with symbolic answers (any Option<Coor4D>) at margin 0 and at margin 0.5","timeout":900,"text":"grids_at returns the first hit in list order at margin 0, else the first hit at margin 0.5, else the zero correction if the null grid is given, else None"}
+//@h {"id":"C08.K.grids_at.first_hit","props":["C08"],"tier":"quick","kind":"bounded","bound":"lists of 0..=2 grids with symbolic answers (any Option<Coor4D>) at margin 0 and at margin 0.5","timeout":900,"text":"grids_at returns the first hit in list order at margin 0, else the first hit at margin 0.5, else the zero correction if the null grid is given, else None"}
 #[kani::proof]
 #[kani::unwind(6)]
 fn c08_grids_at_first_hit() {
